@@ -1,12 +1,89 @@
 /-
 Driver commands of property C11 (core Lean only).  Command names start with "c11.".
+
+  c11.cigar <hex>                 sam.ParseCigar          -> ok <typ:len,..|-> | err | panic
+  c11.cigarsweep <n> <pos> <ops>  accessors on a raw CIGAR -> valid=<b> end=<e> lens=<r>,<q> str=<hex> | panic
+  c11.aux <hex> <oracle>          sam.ParseAux            -> ok <hex> | err | panic
+  c11.auxsweep <hex>              accessors on raw aux bytes -> ok | panic
+  c11.bamaux <hex>                bam.parseAux            -> ok <hex,hex..|-> | err | panic
+  c11.bai <hex>                   bam.ReadIndex           -> ok nil | ok <refs> <bytes WriteIndex writes> | err | panic
+  c11.tbi <hex>                   tabix.ReadFrom          -> ok nil | ok <refs> <bytes WriteTo writes> | err | panic
+
+The oracle of c11.aux is what the real strconv answered for the pieces of this text:
+`kind:hexkey=value;...` with kind a (Atoi), i8/i16/i32 (ParseInt base 0), u8/u16/u32 (ParseUint base 0),
+f (Float32bits of ParseFloat 32); value `e` is an error return; `-` is the empty table.
 -/
 import Hts.Drv.Util
+import Hts.Drv.C16
+import Hts.Model.Decoders
+import Hts.Model.DecodersIndex
 namespace Hts.Drv.C11
-open Hts.Drv
+open Hts.Drv Hts.Model.Decoders Hts.Model.Coord
+
+def toBytes (l : List Nat) : Bytes := l.map UInt8.ofNat
+def ofBytes (b : Bytes) : List Nat := b.map UInt8.toNat
+
+def showCigar (c : List CigarOp) : String :=
+  if c.isEmpty then "-" else ",".intercalate (c.map fun co => s!"{co.typ}:{co.len}")
+
+def showOutcome {α} (f : α → String) : Outcome α → String
+  | .ok v => "ok " ++ f v
+  | .err => "err"
+  | .panic _ => "panic"
+
+structure OracleEntry where
+  kind : String
+  key : Bytes
+  val : Option Int
+
+def parseEntry (s : String) : Option OracleEntry :=
+  match s.splitOn "=" with
+  | [lhs, v] =>
+    match lhs.splitOn ":" with
+    | [kind, k] => do
+      let key ← parseHex k
+      let val ← if v == "e" then some none else (parseInt v).map some
+      some ⟨kind, toBytes key, val⟩
+    | _ => none
+  | _ => none
+
+def parseOracle (s : String) : Option (List OracleEntry) :=
+  if s == "-" then some [] else (s.splitOn ";").mapM parseEntry
+
+def lookup (tab : List OracleEntry) (kind : String) (key : Bytes) : Option Int :=
+  match tab.find? (fun e => e.kind == kind && e.key == key) with
+  | some e => e.val
+  | none => none
+
+def tableParsers (tab : List OracleEntry) : Parsers :=
+  { atoi := lookup tab "a"
+    parseInt := fun bits => lookup tab s!"i{bits}"
+    parseUint := fun bits => lookup tab s!"u{bits}"
+    parseFloat32 := lookup tab "f" }
+
+def cigarSweep (n pos : Int) (c : List CigarOp) : String :=
+  match cigarIsValidGo c n, recordEnd false pos c, cigarLengths c, c.mapM (fun co => opString co.typ) with
+  | .ok v, some e, some (r, q), .ok str => s!"valid={boolStr v} end={e} lens={r},{q} str={hexOfNats (ofBytes str)}"
+  | _, _, _, _ => "panic"
 
 def handle (cmd : String) (args : List String) : Option String :=
   match cmd, args with
+  | "c11.cigar", [h] => do
+    some (showOutcome showCigar (parseCigar (toBytes (← parseHex h))))
+  | "c11.cigarsweep", [n, pos, c] => do
+    some (cigarSweep (← parseInt n) (← parseInt pos) (← Hts.Drv.C16.parseCigar c))
+  | "c11.aux", [h, o] => do
+    let tab ← parseOracle o
+    some (showOutcome (fun b => hexOfNats (ofBytes b)) (parseAux (tableParsers tab) (toBytes (← parseHex h))))
+  | "c11.auxsweep", [h] => do
+    some (showOutcome (fun _ => "") (auxSweep (toBytes (← parseHex h)))).trimAscii.toString
+  | "c11.bamaux", [h] => do
+    some (showOutcome (fun l => if l.isEmpty then "-" else ",".intercalate (l.map fun b => hexOfNats (ofBytes b)))
+      (parseAuxBam (toBytes (← parseHex h))))
+  | "c11.bai", [h] => do
+    some (showOutcome (fun v => match v with | none => "nil" | some (n, len) => s!"{n} {len}") (readBAI (toBytes (← parseHex h))))
+  | "c11.tbi", [h] => do
+    some (showOutcome (fun v => match v with | none => "nil" | some (n, len) => s!"{n} {len}") (readTabix (toBytes (← parseHex h))))
   | _, _ => none
 
 end Hts.Drv.C11
